@@ -1,50 +1,111 @@
 """C06 (direct half) - the interning key of Wiring::add_node, exercised through the real wiring API.
 
 Streams `intern-*` feed textual wiring programs to harness/drv_intern.cpp (hgv_intern) and to the model driver
-lean/Drivers/Intern.lean (HgVerif.InternKey.step = HgVerif.Intern.addNode over the key built from the resolved producers).  Every declaration prints WHICH node it
-denotes; the monitor decides, from the program text alone, which declarations must and must not share a node.
+lean/Drivers/Intern.lean (HgVerif.InternKey.stepS = HgVerif.Intern.addNode over the key built from the definition, the scalar,
+the RESOLVED schema record and the resolved producers).  Every declaration prints WHICH node it denotes and the type of the
+port it returned; `run` builds the graph, runs it once and prints what every recorder sink saw.  The monitor decides, from the
+program text alone, which declarations must not share a node, which type each port has and which stream each consumer records.
+Generic definitions: quote (output type variable bound ONLY by the requested output type, typed and by-name call surface),
+echo (type follows the input), a generic recorder sink.
 Merged into tools/props/c06.py the way tools/props/c01.py merges c01rank.py (dispatch on the stream name).
 """
 import os
 from vlib import Case, Stream, BUILD, VERIF, model_cmd
 
 ID = "C06I"
-LEAN_MODULES = ["HgVerif.Props.C06Key", "HgVerif.Props.C06KeyOrder", "HgVerif.Model.InternKey", "HgVerif.Driver.Proto"]
+LEAN_MODULES = ["HgVerif.Props.C06Key", "HgVerif.Props.C06KeyOrder", "HgVerif.Props.C06KeySchema", "HgVerif.Model.InternKey",
+                "HgVerif.Driver.Proto"]
 THEOREMS = ["HgVerif.Intern.pair_same_iff", "HgVerif.Intern.wireAll_same_iff", "HgVerif.Intern.wireAll_perm_same_iff",
             "HgVerif.Intern.wireAll_ctx_same_iff", "HgVerif.Intern.wireAll_count",
             "HgVerif.InternKey.wireL_same_iff_tree", "HgVerif.InternKey.wireL_declared_iff",
             "HgVerif.InternKey.semL_order_irrelevant", "HgVerif.InternKey.wireL_order_irrelevant",
-            "HgVerif.InternKey.wireL_declares"]
+            "HgVerif.InternKey.wireL_declares",
+            "HgVerif.InternKey.keyS_pair_same_iff", "HgVerif.InternKey.wireS_same_iff_tree", "HgVerif.InternKey.stree_eq_iff",
+            "HgVerif.InternKey.semS_equations", "HgVerif.InternKey.semS_order_irrelevant",
+            "HgVerif.InternKey.wireS_order_irrelevant", "HgVerif.InternKey.wireS_declares",
+            "HgVerif.InternKey.wireP_same_iff_tree", "HgVerif.InternKey.stepP_merges", "HgVerif.InternKey.stepS_same_iff",
+            "HgVerif.InternKey.noOutput_merges", "HgVerif.InternKey.exQ_noOutput_merged", "HgVerif.InternKey.exQ_trees_differ"]
 CXX_TARGETS = ["hgv_intern"]
 RULE = ("intern streams: wiring programs of 3-12 declarations over 1-3 sources (TS<Int>, TSL<TS<Int>,2>, TSB{a,b}, a source "
-        "with an error output) wired through the real wire<X>/Port/passive/error_output API; declarations are fresh, exact "
-        "duplicates, or near-duplicates that differ from an earlier one in exactly one key dimension (definition, scalar, "
+        "with an error output) wired through the real wire<X>/wire<X, Out>/wire_operator/Port/passive/error_output API; "
+        "definitions: concrete f1 g1 f2 g2 t1, sinks k0 k1 k2, and the generic quote (output type variable bound only by the "
+        "requested output type TS<Int>/TS<Float>/TS<Bool>; typed call and by-name call), echo (type follows the input) and "
+        "a generic recorder sink; declarations are fresh, exact duplicates, or near-duplicates that differ from an earlier "
+        "one in exactly one key dimension (definition, scalar, REQUESTED OUTPUT TYPE, call surface [may share], "
         "producer, output sub-path, output kind, passive marker, rank-dependency flag, input order, structural vs whole "
         "input), plus duplicated sinks; each case wires the SAME declarations in 2-3 admissible statement orders; a "
-        "systematic stream enumerates every (base declaration, single-dimension change) pair in both orders. "
+        "systematic stream enumerates every (base declaration, single-dimension change) pair in both orders; stream "
+        "intern-restype: 2-5 applications of quote to one (often duplicated = shared) input expression differing only in "
+        "the requested type, with same-type duplicates and echo controls, one recorder per application, in the written, "
+        "the reversed and a random order. Programs without rank-free inputs are also RUN once (every source ticks once): "
+        "each recorder must show what its own declaration computes alone, identically in every order. "
         "Non-trivial = >=2 orders and a shared or a near-duplicate pair; distinct by program text")
-TRUSTED = ["scalar equality in the key uses Value::equals/hash: exercised for Int scalars only",
-           "resolved WiringNodeSchema: every node of the intern streams is concrete, so the schema is a function of the "
-           "definition (generic nodes are covered by the engine stream only through distinct scalars)"]
+TRUSTED = ["scalar equality in the key uses Value::equals/hash: exercised for Int scalars and for an Int / a Float scalar of equal value (gs)",
+           "resolved WiringNodeSchema: the model's schema record (Drivers/Intern.lean schemaOf) is written from the definitions' "
+           "signatures; the correspondence ties its OUTPUT component (quote, echo) and its INPUT component (echo, recorder) "
+           "to the code through the node identities and port types; error_output / recordable_state / scalar / state "
+           "schemas never vary independently of the definition in these streams"]
 ASSUMPTIONS = ["sources of the intern streams are peered or one-level structural; boundary / delayed sources are not exercised"]
 
 USES_EXTRACT = False
-TECHNIQUE = ("Lean 4 proof that two labels of an admissible wiring program denote one node iff their expression trees are "
+TECHNIQUE = ("Lean 4 proof that two labels of an admissible wiring program denote one node iff their expression trees "
+             "(definition, scalars, resolved schema record, inputs) are "
              "equal, for every statement order (keys are built from the producers' node ids at wiring time), + node-count "
-             "theorem + differential correspondence of the real Wiring::add_node against that model, declaration by "
-             "declaration, + text-level monitor")
-LEVEL_TEXT = ("Kernel-checked for every definition/attribute type and every admissible program: same node <=> same "
-              "definition, scalars and, input by input, same recorded attributes and same producer tree "
-              "(wireL_same_iff_tree); the partition is the same for every admissible statement order "
-              "(wireL_order_irrelevant); nodes created = sinks + distinct keys (wireAll_count).")
-LEVEL_NOTE = ("Trusted: Lean kernel; the concrete key of Drivers/Intern.lean (definition, scalar, per input: producer node, "
-              "slot, structural child index, sub-path, output kind, passive marker, rank flag) tied to InstanceKey / "
-              "InputKey / SourceKey by running the real wiring API on generated programs.")
+             "theorem + necessity of the schema components (a key that forgets one merges declarations that differ) "
+             "+ differential correspondence of the real Wiring::add_node against that model, declaration by "
+             "declaration, + text-level monitor (identity, port type, node count, edges, recorded streams)")
+LEVEL_TEXT = ("Kernel-checked for every definition/attribute/schema type and every admissible program: same node <=> same "
+              "definition, scalars, resolved schema (input, OUTPUT, error_output, recordable_state, scalar, state: "
+              "keyS_pair_same_iff, stree_eq_iff) and, input by input, same recorded attributes and same producer tree "
+              "(wireS_same_iff_tree / wireL_same_iff_tree); the partition is the same for every admissible statement order "
+              "(wireS_order_irrelevant); nodes created = sinks + distinct keys (wireAll_count). A key that records only a "
+              "projection of the schema identifies exactly the trees equal after the projection (wireP_same_iff_tree): "
+              "it merges two applications of one definition with equal scalars and inputs whose schemas the projection "
+              "cannot tell apart, which the coded key keeps distinct (stepP_merges, stepS_same_iff); for the key without "
+              "the output schema: noOutput_merges and the evaluated witness exQ_noOutput_merged (quote(x)->TS[int] and "
+              "quote(x)->TS[float] one node, one node fewer, in both statement orders).")
+LEVEL_NOTE = ("Trusted: Lean kernel; the concrete key of Drivers/Intern.lean (definition, scalar, resolved schema record, per input: "
+              "producer node, slot, structural child index, sub-path, output kind, passive marker, rank flag) tied to InstanceKey / "
+              "WiringNodeSchema / InputKey / SourceKey by running the real wiring API on generated programs.")
 
 IMPL = [os.path.join(BUILD, "hgv_intern")]
-VALUE_DEFS = {"f1": (1, "ts"), "g1": (1, "ts"), "f2": (2, "ts"), "g2": (2, "ts"), "t1": (1, "tsl")}
-SINK_DEFS = {"k0": (0, "ts"), "k1": (1, "ts"), "k2": (2, "ts")}
+# definition -> (arity, wanted input): "ts" a TS<Int> port, "tsl" the TSL (whole or structural), "any" a TS<Int>/TS<Float>/TS<Bool>
+# port (generic input).  q:<t> / qn:<t>: ONE generic definition quote(In<TS<Int>>, Out<TsVar<"O">>) called through the typed
+# surface wire<Quote, TS<T>> / by name with a requested output schema; <t> = i | f | b is the requested output type, the only
+# thing that binds "O".  ec: echo(In<TsVar<"S">>, Out<TsVar<"S">>), the output type follows the input.  r: recorder sink.
+REQ = "ifb"
+VALUE_DEFS = {"f1": (1, "ts"), "g1": (1, "ts"), "f2": (2, "ts"), "g2": (2, "ts"), "t1": (1, "tsl"), "ec": (1, "any")}
+VALUE_DEFS.update({"%s:%s" % (c, t): (1, "ts") for c in ("q", "qn") for t in REQ})
+# gs:<t>: gs(In<TS<Int>>, Scalar<"k", ScalarVar<"T">>, Out<TS<Int>>) with the scalar passed as Int{k} (i) / Float{k} (f): generic in
+# its SCALAR only - the resolved scalar schema and the scalar value's type differ, nothing else
+VALUE_DEFS.update({"gs:i": (1, "ts"), "gs:f": (1, "ts")})
+SINK_DEFS = {"k0": (0, "ts"), "k1": (1, "ts"), "k2": (2, "ts"), "r": (1, "any")}
 SRC_TYPES = {"s": "ts", "p": "tsl", "b": "tsb", "e": "tse"}
+REQ_TYPE = {"i": "ts", "f": "tf", "b": "tb"}          # label types: ts / tse TS<Int>, tf TS<Float>, tb TS<Bool>
+TYPE_CODE = {"ts": "i", "tse": "i", "tf": "f", "tb": "b", "tsl": "l", "tsb": "s"}
+SCALAR_TS = ("ts", "tse", "tf", "tb")
+
+
+def family(d):
+    """the node DEFINITION of a def token: q:<t> and qn:<t> are one definition, gs:i and gs:f another"""
+    return "q" if d.startswith(("q:", "qn:")) else "gs" if d.startswith("gs:") else d
+
+
+def requested(d):
+    return d.split(":")[1] if d.startswith(("q:", "qn:")) else None
+
+
+def surface(d):
+    return d.split(":")[0] if d.startswith(("q:", "qn:")) else None
+
+
+def canon(d):
+    """q:<t> and qn:<t> are the same declaration (definition, requested type): they MAY share a node"""
+    return "q:" + requested(d) if requested(d) else d
+
+
+def generic(d):
+    return ":" in d or d in ("ec", "r")
 
 
 # ----------------------------------------------------------------------------- program text
@@ -115,7 +176,7 @@ def segments(case, out):
             if cur or fin is not None:
                 segs.append((cur, fin))
             cur, fin = [], None
-        elif w[0] == "finish":
+        elif w[0] in ("finish", "run"):
             if fin is None:
                 fin = o
         else:
@@ -151,16 +212,89 @@ def trees_of(decls):
             ins = tuple((p, f) + ((elem_t(b[1]),) if b[0] == "e" else ("[", elem_t(b[1]), elem_t(b[2]))) for p, f, b in d["ins"])
         except KeyError:
             continue
-        tree[d["lbl"]] = (d["op"], d["d"], d["k"], ins)
+        tree[d["lbl"]] = (d["op"], canon(d["d"]), d["k"], ins)
     return tree
+
+
+def types_of(decls):
+    """label -> type of the port the declaration denotes, from the program text: a source by its kind, q:<t>/qn:<t> the
+    REQUESTED type, ec the type of its input, every other value definition TS<Int>"""
+    ty = {}
+    for d in decls:
+        if d["op"] == "src":
+            ty[d["lbl"]] = SRC_TYPES[d["d"]]
+        elif d["op"] == "node" and not all_passive(d):
+            if requested(d["d"]):
+                ty[d["lbl"]] = REQ_TYPE[requested(d["d"])]
+            elif d["d"] == "ec":
+                e = d["ins"][0][2][1]
+                t = ty.get(e[0], "ts")
+                ty[d["lbl"]] = "ts" if (e[1] or t == "tse") else t
+            else:
+                ty[d["lbl"]] = "ts"
+    return ty
+
+
+def tree_value(t, memo=None):
+    """what a declaration produces ALONE in the one simulation cycle of `run` (None: never ticks): every source ticks its
+    scalar once at start (the e source never ticks), a node evaluates iff all its inputs are valid (a structural TSL: one
+    child is), f1/g1/f2/g2 = sum of inputs + k, t1 = k, quote -> i: 3a+k+1, -> f: a+k+0.5 (as ('h', a+k)), -> b: a+k odd"""
+    memo = {} if memo is None else memo
+    if t in memo:
+        return memo[t]
+    if t[0] == "src":
+        v = None if t[1] == "e" else t[2]
+    else:
+        _, d, k, ins = t
+
+        def ev(e):
+            return None if e[1] == "!" else tree_value(e[0], memo)
+        args, ok = [], True
+        for i in ins:
+            vs = [ev(e) for e in i[2:] if e != "["]
+            ok = ok and any(x is not None for x in vs)
+            args.append(vs[0])
+        if not ok:
+            v = None
+        elif d in ("f1", "g1", "f2", "g2"):
+            v = sum(args) + k
+        elif d == "t1":
+            v = k
+        elif d in ("gs:i", "gs:f"):
+            v = args[0] + k + (1000 if d == "gs:f" else 0)
+        elif d in ("ec", "r"):
+            v = args[0]
+        elif d == "q:i":
+            v = 3 * args[0] + k + 1
+        elif d == "q:f":
+            v = ("h", args[0] + k)
+        elif d == "q:b":
+            v = ("b", (args[0] + k) % 2 == 1)
+        else:
+            v = None
+    memo[t] = v
+    return v
+
+
+def value_s(v):
+    if v is None:
+        return ""
+    if isinstance(v, tuple):
+        return "%d.5" % v[1] if v[0] == "h" else ("true" if v[1] else "false")
+    return str(v)
 
 
 def why_different(a, b, da, db):
     """names the first key dimension in which two declarations differ (diagnostic text only)"""
     if da["op"] == "src" or db["op"] == "src":
         return "source kind/scalar" if (da["op"], da["d"], da["k"]) != (db["op"], db["d"], db["k"]) else "?"
-    if da["d"] != db["d"]:
+    if family(da["d"]) != family(db["d"]):
         return "definition"
+    if family(da["d"]) == "gs" and da["d"] != db["d"]:
+        return "TYPE OF THE SCALAR (k : int / k : float: the resolved scalar schema of one generic definition)"
+    if canon(da["d"]) != canon(db["d"]):
+        return "REQUESTED OUTPUT TYPE (-> %s / -> %s: the resolved output schema of one generic definition)" % (
+            requested(da["d"]), requested(db["d"]))
     if da["k"] != db["k"]:
         return "scalar"
     for s, (x, y) in enumerate(zip(a[3], b[3])):
@@ -203,7 +337,7 @@ def parse_finish(line, tree):
     if not line.startswith("nodes="):
         return None
     try:
-        n, e = line.split(" ", 1)
+        n, e = line.split(" rec=")[0].split(" ", 1)
         count = int(n[len("nodes="):])
         es = []
         for t in [x for x in e[len("edges="):].split(",") if x]:
@@ -229,6 +363,7 @@ def check_trace(case, out):
         if any(all_passive(d) and o != "err" for d, o in items):
             return bad                        # acceptance of an all-passive node is not this property's business
         tree = trees_of(decls)
+        types = types_of(decls)
         vals = []
         for d, o in items:
             if d["lbl"] not in tree:
@@ -239,7 +374,13 @@ def check_trace(case, out):
                 if o != "sink":
                     bad.append("[sink] sink %s returned %r" % (d["lbl"], o[:30]))
                 continue
-            vals.append((d, o))
+            node, _, stamp = o.partition(":")
+            vals.append((d, node))
+            # the port a declaration returns has the type the declaration says (for quote: the REQUESTED type)
+            want = TYPE_CODE[types[d["lbl"]]]
+            if stamp != want:
+                bad.append("[type] declaration %s (%s) denotes a %s port but the wiring returned a port of type %r (node %s)"
+                           % (d["lbl"], decl_s(d), want, stamp, node))
         for i in range(len(vals)):
             for j in range(i + 1, len(vals)):
                 (da, oa), (db, ob) = vals[i], vals[j]
@@ -254,12 +395,24 @@ def check_trace(case, out):
             classes.setdefault(o, set()).add(d["lbl"])
         part = frozenset(frozenset(v) for v in classes.values())
         nsinks = sum(1 for d, o in items if d["op"] == "sink" and d["lbl"] in tree and o == "sink")
-        view = [part, None, None]
+        view = [part, None, None, None]
         if fin is not None:
             got = parse_finish(fin, tree)
             if got is None:
-                bad.append("[build] finish of a well-formed wiring returned %r" % fin[:60])
+                bad.append("[build] finish / run of a well-formed wiring returned %r (the dataflow is well typed: every "
+                           "declaration wires alone)" % fin[:60])
             else:
+                if " rec=" in fin:
+                    # each consumer's recorded stream is what its OWN declaration produces alone
+                    recs = dict(x.split(":", 1) for x in fin.split(" rec=", 1)[1].split(";") if ":" in x)
+                    memo = {}
+                    for d, o in items:
+                        if d["op"] == "sink" and d["d"] == "r" and d["lbl"] in tree and o == "sink":
+                            want = value_s(tree_value(tree[d["lbl"]], memo))
+                            if recs.get(d["lbl"]) != want:
+                                bad.append("[stream] recorder %s (%s) recorded [%s] but its declaration produces [%s]"
+                                           % (d["lbl"], decl_s(d), recs.get(d["lbl"], "<missing>"), want))
+                    view[3] = sorted(recs.items())
                 ntrees = len({tree[d["lbl"]] for d, _ in vals})
                 if got[0] < ntrees + nsinks or got[0] > len(vals) + nsinks:
                     bad.append("[count] built graph has %d nodes but the dataflow has %d distinct value nodes (%d declarations) + %d sinks"
@@ -273,6 +426,9 @@ def check_trace(case, out):
     for i, v in enumerate(views[1:], 1):
         if v[2] is not None and views[0][2] is not None and set(v[2]) != set(views[0][2]):
             bad.append("[order] statement order %d builds a different dataflow than order 0" % i)
+        if v[3] is not None and views[0][3] is not None and v[3] != views[0][3]:
+            bad.append("[order] statement order %d records different streams than order 0: %s vs %s"
+                       % (i, ";".join("%s:%s" % x for x in v[3]), ";".join("%s:%s" % x for x in views[0][3])))
     return bad
 
 
@@ -291,8 +447,14 @@ def one_dimension(a, b):
             return "equal"
         return "src-kind" if a["k"] == b["k"] else "src-scalar" if a["d"] == b["d"] else None
     diffs = []
-    if a["d"] != b["d"]:
+    if family(a["d"]) != family(b["d"]):
         diffs.append("definition")
+    elif family(a["d"]) == "gs" and a["d"] != b["d"]:
+        diffs.append("scalar-type")
+    elif requested(a["d"]) != requested(b["d"]):
+        diffs.append("requested-type")        # through whichever surfaces: the declarations differ in the resolved type only
+    elif a["d"] != b["d"]:
+        diffs.append("call-surface")          # the same declaration through the other surface: MAY share
     if a["k"] != b["k"]:
         diffs.append("scalar")
     if len(a["ins"]) != len(b["ins"]):
@@ -334,11 +496,19 @@ def features(stream, case, out):
     n = len(decls)
     f.add("decls:%s" % (n if n <= 4 else "5-8" if n <= 8 else "9-12" if n <= 12 else ">12"))
     tree = trees_of(decls)
+    types = types_of(decls)
+    if any(ln.split() == ["run"] for ln in case.lines):
+        f.add("run")
+        if fin and " rec=" in fin and fin.split(" rec=", 1)[1]:
+            f.add("run:recorded-streams")
     for d in decls:
         if d["op"] == "src":
             f.add("src:" + d["d"])
         else:
             f.add("def:" + d["d"])
+            if d["d"] in ("ec", "r") and d["ins"][0][2][0] == "e":
+                f.add("%s-input:%s" % (d["d"], TYPE_CODE.get(types.get(d["ins"][0][2][1][0], "ts"), "?")
+                                       if not d["ins"][0][2][1][1] else "i"))
             if all_passive(d):
                 f.add("rejected-all-passive")
             for p, fr, b in d["ins"]:
@@ -357,12 +527,22 @@ def features(stream, case, out):
         for j in range(i + 1, n):
             a, b = decls[i], decls[j]
             dim = one_dimension(a, b)
-            if dim != "equal" and a["op"] == b["op"] == "node" and a["lbl"] in tree and tree.get(a["lbl"]) == tree.get(b["lbl"]):
+            if dim == "call-surface":
+                f.add("same-declaration-through-the-other-surface")
+            elif dim != "equal" and a["op"] == b["op"] == "node" and a["lbl"] in tree and tree.get(a["lbl"]) == tree.get(b["lbl"]):
                 f.add("shared-through-equal-producers")
             elif dim == "equal":
                 f.add("duplicate-sink" if a["op"] == "sink" else "exact-duplicate" if a["op"] == "node" else "duplicate-source")
+                if a["op"] == "node" and requested(a["d"]):
+                    f.add("exact-duplicate:same-requested-type")
             elif dim:
                 f.add("near-dup:" + dim)
+                if dim == "requested-type":
+                    # which surfaces, which of the two is wired first in order 0, shared input sub-expression
+                    f.add("requested-type:%s-then-%s" % (surface(a["d"]), surface(b["d"])))
+                    f.add("requested-type:%s-first" % requested(a["d"]))
+                    if any(e[0] in tree and tree[e[0]][0] == "node" for _, _, bd in a["ins"] for e in bd[1:]):
+                        f.add("requested-type:over-a-shared-sub-expression")
     if any(o == "err" for _, o in items):
         f.add("impl-rejected-declaration")
     nums = [o for d, o in items if d["op"] != "sink" and o.startswith("n")]
@@ -392,13 +572,17 @@ def valid_case(stream, case, impl_out, model_out):
 
 # ----------------------------------------------------------------------------- generator
 
-def ts_elems(env):
+def ts_elems(env, any_ts=False):
+    """TS<Int> elements; any_ts: also the TS<Float> / TS<Bool> ports (generic inputs)"""
     es = []
     for l, ty in env.items():
         if ty == "ts":
             es.append((l, ""))
         elif ty == "tse":
             es += [(l, ""), (l, "!")]
+        elif ty in ("tf", "tb"):
+            if any_ts:
+                es.append((l, ""))
         else:
             es += [(l, ".0"), (l, ".1")]
     return es
@@ -421,20 +605,24 @@ class Gen:
         if d["op"] == "src":
             self.env[d["lbl"]] = SRC_TYPES[d["d"]]
         elif d["op"] == "node" and not all_passive(d):
-            self.env[d["lbl"]] = "ts"
+            self.env[d["lbl"]] = types_of(self.decls)[d["lbl"]]
 
     def source(self, kind=None, k=None):
         rng = self.rng
         kind = kind or rng.choice("sssppbbee")
         self.add(dict(op="src", lbl=self.label("s"), d=kind, k=rng.choice([0, 0, 1]) if k is None else k, ins=[]))
 
-    def rand_elem(self):
-        es = ts_elems(self.env)
+    def rand_elem(self, any_ts=False):
+        es = ts_elems(self.env, any_ts)
+        if any_ts and self.rng.random() < 0.6:
+            es = [e for e in es if self.env[e[0]] in ("tf", "tb")] or es
         # prefer recent producers so that chains / diamonds appear
         return self.rng.choice(es[-6:] if self.rng.random() < 0.5 else es)
 
     def rand_input(self, want):
         rng = self.rng
+        if want == "any":
+            return (rng.random() < 0.10, False, ("e", self.rand_elem(True)))
         free = rng.random() < 0.10
         whole = [l for l, ty in self.env.items() if ty == "tsl"]
         if want == "tsl" and whole and rng.random() < 0.5:
@@ -450,12 +638,19 @@ class Gen:
             ins[k] = (False,) + ins[k][1:]
         return ins
 
-    def fresh(self, sink):
+    def fresh(self, sink, d=None):
         rng = self.rng
         defs = SINK_DEFS if sink else VALUE_DEFS
-        d = rng.choice(sorted(defs))
+        if d is None:
+            # the six q tokens are one definition: do not let them crowd out the concrete ones
+            d = rng.choice(["k0", "k1", "k1", "k2", "r", "r", "r"] if sink else
+                           ["f1", "f1", "g1", "f2", "f2", "g2", "t1", "ec", "ec", "q", "q", "q", "gs:i", "gs:f"])
+            if d == "q":
+                d = "%s:%s" % (rng.choice(["q", "qn"]), rng.choice(REQ))
         ar, want = defs[d]
         ins = self.fix_passive([self.rand_input(want) for _ in range(ar)])
+        if generic(d):
+            ins = [(p, False, b) for p, _, b in ins]          # no explicit-WiringInputRef form for generic definitions
         self.add(dict(op="sink" if sink else "node", lbl=self.label("k" if sink else "v"), d=d, k=rng.choice([0, 0, 1]), ins=ins))
 
     def mutations(self, d):
@@ -466,9 +661,23 @@ class Gen:
             out += [("src-kind", dict(d, d=k)) for k in "spbe" if k != d["d"]]
             return out
         defs = SINK_DEFS if d["op"] == "sink" else VALUE_DEFS
+        gen = generic(d["d"])
+        all_int = all(self.env.get(e[0]) not in ("tf", "tb") for _, _, b in d["ins"] for e in b[1:])
         for other, sig in sorted(defs.items()):
-            if other != d["d"] and sig == defs[d["d"]]:
+            if family(other) == family(d["d"]) or gen and any(f for _, f, _ in d["ins"]):
+                continue
+            if sig == defs[d["d"]] or (all_int and {sig[1], defs[d["d"]][1]} == {"ts", "any"} and sig[0] == defs[d["d"]][0]):
+                if requested(other) and requested(other) != (requested(d["d"]) or "i"):
+                    continue                     # one change at a time: another definition, the same port type
+                if generic(other) and any(f for _, f, _ in d["ins"]):
+                    continue
                 out.append(("definition", dict(d, d=other)))
+        if family(d["d"]) == "gs":
+            out.append(("scalar-type", dict(d, d="gs:f" if d["d"] == "gs:i" else "gs:i")))
+        if requested(d["d"]):
+            # THE dimension of the resolved output schema: the same definition, inputs and scalar, another requested type
+            out += [("requested-type", dict(d, d="%s:%s" % (surface(d["d"]), t))) for t in REQ if t != requested(d["d"])]
+            out.append(("call-surface", dict(d, d="%s:%s" % ("qn" if surface(d["d"]) == "q" else "q", requested(d["d"])))))
         out.append(("scalar", dict(d, k=d["k"] + 1)))
         if len(d["ins"]) == 2 and d["ins"][0] != d["ins"][1]:
             out.append(("input-order", dict(d, ins=[d["ins"][1], d["ins"][0]])))
@@ -477,7 +686,8 @@ class Gen:
                 return dict(d, ins=d["ins"][:s] + [ni] + d["ins"][s + 1:])
             if b[0] == "e":
                 out.append(("passive", put((not p, f, b))))
-            out.append(("rank-flag", put((p, not f, b))))
+            if not gen:
+                out.append(("rank-flag", put((p, not f, b))))
             if b[0] == "s" and b[1] != b[2]:
                 out.append(("child-order", put((p, f, ("s", b[2], b[1])))))
             if b[0] == "e" and self.env.get(b[1][0]) == "tsl" and b[1][1] == "" and not p:
@@ -499,6 +709,8 @@ class Gen:
                     ok = {"tsl", "tsb"}
                 elif b[0] == "e" and defs[d["d"]][1] == "tsl":
                     ok = {"tsl"}
+                elif defs[d["d"]][1] == "any":
+                    ok = {"ts", "tse", "tf", "tb"}      # a producer of another type: the resolved type follows the input
                 else:
                     ok = {"ts", "tse"}
                 for other, oty in self.env.items():
@@ -526,8 +738,8 @@ class Gen:
         self.add(dict(base, lbl=self.label({"src": "s", "node": "v", "sink": "k"}[base["op"]])))
 
 
-def gen_program(rng):
-    g = Gen(rng)
+def gen_program(rng, g=None):
+    g = g or Gen(rng)
     nsrc = rng.choice([1, 2, 2, 3, 3])
     for i in range(nsrc):
         if i and rng.random() < 0.3:
@@ -566,20 +778,109 @@ def topo_shuffle(rng, decls):
     return order
 
 
-def case_of(idx, orders):
+def topo_reverse(decls):
+    """the admissible order that reverses the relative order of independent statements (the latest ready one first)"""
+    left, done, order = list(decls), set(), []
+    defined = {d["lbl"] for d in decls if d["op"] != "sink"}
+    while left:
+        d = [d for d in left if (refs(d) & defined) <= done][-1]
+        left.remove(d)
+        done.add(d["lbl"])
+        order.append(d)
+    return order
+
+
+def case_of(idx, orders, term="finish"):
+    if any(f for d in orders[0] for _, f, _ in d["ins"]):
+        term = "finish"       # a consumer behind a rank-free edge may be ranked before its producer: build only
     L = ["case %d" % idx]
     for j, o in enumerate(orders):
-        L += (["reset"] if j else []) + [decl_s(d) for d in o] + ["finish"]
+        L += (["reset"] if j else []) + [decl_s(d) for d in o] + [term]
     return Case(L)
 
 
+def add_recorders(rng, g, n):
+    """r sinks on up to n value ports (generic ones first): the consumers whose streams `run` reports"""
+    cands = [(l, "") for l, ty in g.env.items() if ty in SCALAR_TS]
+    pref = [c for c in cands if g.env[c[0]] in ("tf", "tb")] + [c for c in cands if any(
+        d["lbl"] == c[0] and generic(d["d"]) for d in g.decls if d["op"] == "node")]
+    for _ in range(n):
+        pool = pref if pref and rng.random() < 0.7 else cands
+        if not pool:
+            return
+        e = rng.choice(pool)
+        g.add(dict(op="sink", lbl=g.label("r"), d="r", k=0, ins=[(False, False, ("e", e))]))
+
+
 def gen_case(rng, idx):
-    decls = gen_program(rng)
+    g = Gen(rng)
+    decls = gen_program(rng, g)
+    run = rng.random() < 0.6
+    if run:
+        add_recorders(rng, g, rng.randint(1, 4))
     k = rng.choice([2, 3, 3])
     orders = [decls] + [topo_shuffle(rng, decls) for _ in range(k - 1)]
     if rng.random() < 0.3:
         orders[0] = topo_shuffle(rng, decls)
-    return case_of(idx, orders)
+    return case_of(idx, orders, "run" if run else "finish")
+
+
+def gen_restype(rng, idx):
+    """programs around the RESOLVED OUTPUT TYPE: 2-5 applications of the generic quote to ONE input expression (possibly a
+    duplicated, hence shared, sub-expression) that differ only in the requested output type, through both call surfaces,
+    duplicates with the same requested type (the may-share control), echo nodes whose type follows their input (control),
+    one recorder per application (directly or behind an echo / a concrete consumer); wired in the given order, in the
+    order that reverses independent statements, and in a random admissible order; run."""
+    g = Gen(rng)
+    g.source(rng.choice("ssspb"))
+    if rng.random() < 0.4:
+        g.source(rng.choice("sspbe"))
+    ins = ts_elems(g.env)
+    base = rng.choice(ins)
+    alts = [base]
+    if rng.random() < 0.6:
+        # the input is a sub-expression declared twice (shared): the quotes hang off either label
+        k = rng.choice([0, 1])
+        for _ in range(2):
+            g.add(dict(op="node", lbl=g.label("m"), d="f1", k=k, ins=[(False, False, ("e", base))]))
+        alts = [(g.decls[-2]["lbl"], ""), (g.decls[-1]["lbl"], "")]
+    n = rng.randint(2, 5)
+    types = [rng.choice(REQ) for _ in range(n)]
+    if len(set(types)) == 1:
+        types[rng.randrange(n)] = rng.choice([t for t in REQ if t != types[0]])
+    if n >= 3 and rng.random() < 0.7:
+        types[rng.randrange(n)] = types[rng.randrange(n)]                      # very likely a same-type duplicate
+    k = rng.choice([0, 0, 1])
+    passive_in = rng.random() < 0.1
+    qs = []
+    for t in types:
+        surf = rng.choice(["q", "qn"])
+        kk = k if rng.random() < 0.85 else k + 1
+        e = rng.choice(alts) if rng.random() < 0.9 else rng.choice(ins)
+        g.add(dict(op="node", lbl=g.label("q"), d="%s:%s" % (surf, t), k=kk, ins=[(False, False, ("e", e))]))
+        qs.append(g.decls[-1])
+    for q in qs:
+        port = (q["lbl"], "")
+        r = rng.random()
+        if r < 0.35:
+            g.add(dict(op="node", lbl=g.label("e"), d="ec", k=0, ins=[(False, False, ("e", port))]))
+            port = (g.decls[-1]["lbl"], "")
+        elif r < 0.5 and requested(q["d"]) == "i":
+            g.add(dict(op="node", lbl=g.label("c"), d=rng.choice(["f1", "g1"]), k=rng.choice([0, 1]), ins=[(False, False, ("e", port))]))
+            port = (g.decls[-1]["lbl"], "")
+        elif r < 0.6 and requested(q["d"]) == "i":
+            other = rng.choice(ins)
+            g.add(dict(op="node", lbl=g.label("c"), d="f2", k=0, ins=[(False, False, ("e", port)), (passive_in, False, ("e", other))]))
+            port = (g.decls[-1]["lbl"], "")
+        g.add(dict(op="sink", lbl=g.label("r"), d="r", k=0, ins=[(False, False, ("e", port))]))
+    if rng.random() < 0.5:
+        g.add(dict(op="node", lbl=g.label("e"), d="ec", k=0, ins=[(False, False, ("e", rng.choice(ts_elems(g.env, True))))]))
+        g.add(dict(op="sink", lbl=g.label("r"), d="r", k=0, ins=[(False, False, ("e", (g.decls[-1]["lbl"], "")))]))
+    for _ in range(rng.randint(0, 2)):
+        if not g.near_dup():
+            break
+    decls = g.decls
+    return case_of(idx, [decls, topo_reverse(decls), topo_shuffle(rng, decls)], "run")
 
 
 def systematic(idx0):
@@ -595,10 +896,27 @@ def systematic(idx0):
         g.add(s)
     mid = dict(op="node", lbl="m", d="f1", k=0, ins=[(False, False, ("e", ("c", "")))])
     g.add(mid)
+    # producers of the other port types (for the generic input of ec / r)
+    mids = [mid, dict(op="node", lbl="qf", d="q:f", k=0, ins=[(False, False, ("e", ("a", "")))]),
+            dict(op="node", lbl="qb", d="qn:b", k=1, ins=[(False, False, ("e", ("a", "")))])]
+    for m in mids[1:]:
+        g.add(m)
 
     def I(lbl, suf="", p=False, f=False):
         return (p, f, ("e", (lbl, suf)))
     bases = []
+    # the generic definitions: every requested type through both surfaces over a source, a shared sub-expression, a
+    # sub-path, a never-ticking port; echo / recorder over every port type
+    for el in [("a", ""), ("m", ""), ("p", ".1"), ("e", "!")]:
+        for t in REQ:
+            bases.append(dict(op="node", d="q:" + t, k=0, ins=[I(*el)]))
+            bases.append(dict(op="node", d="qn:" + t, k=1, ins=[I(*el)]))
+    for el in [("a", ""), ("m", ""), ("p", ".0")]:
+        bases.append(dict(op="node", d="gs:i", k=1, ins=[I(*el)]))
+        bases.append(dict(op="node", d="gs:f", k=1, ins=[I(*el, p=False)]))
+    for el in [("a", ""), ("qf", ""), ("qb", ""), ("b", ".0")]:
+        bases.append(dict(op="node", d="ec", k=0, ins=[I(*el)]))
+        bases.append(dict(op="sink", d="r", k=0, ins=[I(*el)]))
     for el in [("a", ""), ("m", ""), ("p", ".0"), ("b", ".1"), ("e", ""), ("e", "!")]:
         bases.append(dict(op="node", d="f1", k=0, ins=[I(*el)]))
         bases.append(dict(op="sink", d="k1", k=0, ins=[I(*el)]))
@@ -623,19 +941,26 @@ def systematic(idx0):
             y = dict(var, lbl="y")
             x2 = dict(base, lbl="x2")
             body = [x, y, x2]
+            need = set().union(*[refs(d) for d in body])
+            for m in mids:
+                if m["lbl"] in need:
+                    need |= refs(m)
+            pre = [s for s in srcs if s["lbl"] in need] + [m for m in mids if m["lbl"] in need]
+            tys = types_of(pre + body)
+
+            def C(l):
+                # a consumer of the port: a concrete node for a TS<Int> port, an echo otherwise
+                return "g1" if tys.get(l) in ("ts", "tse") else "ec"
             if base["op"] == "node":
-                body += [dict(op="node", lbl="cx", d="g1", k=0, ins=[I("x")]), dict(op="node", lbl="cy", d="g1", k=0, ins=[I("y")]),
-                         dict(op="sink", lbl="kx", d="k1", k=0, ins=[I("cx")]), dict(op="sink", lbl="ky", d="k1", k=0, ins=[I("cy")])]
+                body += [dict(op="node", lbl="cx", d=C("x"), k=0, ins=[I("x")]), dict(op="node", lbl="cy", d=C("y"), k=0, ins=[I("y")]),
+                         dict(op="sink", lbl="kx", d="r", k=0, ins=[I("cx")]), dict(op="sink", lbl="ky", d="r", k=0, ins=[I("cy")]),
+                         dict(op="sink", lbl="rx", d="r", k=0, ins=[I("x2")])]
             elif base["op"] == "src" and SRC_TYPES[base["d"]] in ("ts", "tse") and SRC_TYPES[var["d"]] in ("ts", "tse"):
                 body += [dict(op="node", lbl="cx", d="g1", k=0, ins=[I("x")]), dict(op="node", lbl="cy", d="g1", k=0, ins=[I("y")])]
-            need = set().union(*[refs(d) for d in body])
-            if "m" in need:
-                need.add("c")
-            pre = [s for s in srcs if s["lbl"] in need] + ([mid] if "m" in need else [])
             o1 = pre + body
-            o2 = pre[::-1] if "m" not in need else pre
+            o2 = pre[::-1] if not any(m["lbl"] in need for m in mids) else pre
             o2 = o2 + [y, x2, x] + ([body[4], body[3]] + body[5:][::-1] if len(body) > 3 else [])
-            cases.append(case_of(idx, [o1, o2]))
+            cases.append(case_of(idx, [o1, o2], "run"))
             idx += 1
     return cases
 
@@ -653,5 +978,8 @@ def corpus_cases():
 def streams(rng, tier, seed):
     n = 450 if tier == "quick" else 12000
     rand = [gen_case(rng, i) for i in range(n)]
+    nr = 300 if tier == "quick" else 8000
+    res = [gen_restype(rng, 200000 + i) for i in range(nr)]
     return [Stream("intern-pairs", IMPL, model_cmd("Intern"), corpus_cases() + systematic(100000)),
-            Stream("intern-orders", IMPL, model_cmd("Intern"), rand)]
+            Stream("intern-orders", IMPL, model_cmd("Intern"), rand),
+            Stream("intern-restype", IMPL, model_cmd("Intern"), res)]
